@@ -180,7 +180,7 @@ fn c12_remote_accept_step() {
 /// implementation accepts one stream more than it advertised (`>` instead of `>=`).
 #[kani::proof]
 #[kani::unwind(3)]
-fn c12_remote_accept_step_boundary() {
+fn c12_remote_accept_step_boundary_pending() {
     accept_step(false);
 }
 
@@ -329,6 +329,6 @@ fn c12_remote_blocked_demand() {
 /// (c) 2^60 <= v: a limit above 2^60 is advertised (peers must treat that as FRAME_ENCODING_ERROR).
 #[kani::proof]
 #[kani::unwind(3)]
-fn c12_remote_blocked_demand_any() {
+fn c12_remote_blocked_demand_any_pending() {
     blocked_demand(false);
 }
